@@ -500,7 +500,8 @@ def _strings_of(v):
 
 intern_pool(STRS + KEYS + TYPS + list(_strings_of(REG_EXTRAS)) + list(_strings_of(FREE_EXTRAS)) +
             ["alg", "enc", "typ", "kid", "JWT", "p2c", "p2s", "epk", "iv", "tag", "kty", "crv", "x", "y", "EC", "P-256",
-             "1700000000", "2030-01-01", "admin", "alice", "JWT2"])
+             "1700000000", "2030-01-01", "admin", "alice", "JWT2", "zip", "DEF", "crit", "apu", "apv", "QWxpY2U", "Qm9i", "Qm9iMg",
+             "8J-YgA", "cty", "jti", "pad"])
 
 
 def gen_header(rng, base, kids, form):
@@ -516,6 +517,15 @@ def gen_header(rng, base, kids, form):
         extra.append(("kid", rng.choice(kids) if "keyset" in form else rng.choice(kids + ["any-kid", "é"])))
     for _ in range(rng.choice([0, 0, 1, 2])):
         extra.append(rng.choice(REG_EXTRAS))
+    if "enc" in base:                       # members only the JWE transport knows
+        if rng.random() < 0.35:
+            extra.append(("zip", "DEF"))
+        if base["alg"].startswith("ECDH-ES") and rng.random() < 0.4:
+            extra += [("apu", rng.choice(["QWxpY2U", "", "8J-YgA"])), ("apv", rng.choice(["Qm9i", "Qm9iMg"]))][:rng.choice([1, 2])]
+    if rng.random() < 0.15:                 # crit naming registered members that are present
+        names = [k for k, _ in items + extra if k not in ("alg", "enc", "crit")]
+        if names:
+            extra.append(("crit", rng.sample(names, min(len(names), rng.choice([1, 2])))))
     if rng.random() < 0.25:
         strict = False
         for _ in range(rng.choice([1, 2])):
@@ -674,7 +684,7 @@ class Options:
     registry with non-default settings (strict_check_header=False, JWE: verify_all_recipients=False)."""
 
     def __init__(self, W, kind, base, mode, strict=True, positional=False):
-        algs = [base["alg"]] + ([base["enc"]] if "enc" in base else [])
+        algs = [base["alg"]] + ([base["enc"]] if "enc" in base else []) + ([base["zip"]] if "zip" in base else [])
         self.kind, self.mode, self.positional = kind, mode, positional
         self.algorithms, self.registry = None, None
         if kind == "jws":
@@ -724,7 +734,7 @@ class Options:
 
 def modes_for(W, kind, base, strict):
     """the ways of passing algorithms / registry that are usable for this transport and header"""
-    algs = [base["alg"]] + ([base["enc"]] if "enc" in base else [])
+    algs = [base["alg"]] + ([base["enc"]] if "enc" in base else []) + ([base["zip"]] if "zip" in base else [])
     if not strict:
         return ["reg", "reg-nondefault"]
     out = ["reg", "algs", "both", "reg-nondefault"]
@@ -827,7 +837,8 @@ def run(ctx):
             "datetime_claims": 0, "contract_points_json": 0, "contract_points_transport": 0,
             "per_encoder_cls": {}, "per_decoder_cls": {}, "per_option_mode": {}, "positional_calls": 0,
             "decoder_made_non_object": 0, "foreign_object_claims": 0,
-            "per_decode_key_form": {}, "keyset_no_matching_kid": 0, "key_form_pairs": 0}
+            "per_decode_key_form": {}, "keyset_no_matching_kid": 0, "key_form_pairs": 0, "zip_header": 0,
+            "jwe_header_members_matrix": 0}
 
     def add(term, m):
         cases.append(share(term))
@@ -935,7 +946,10 @@ def run(ctx):
         tname, kind, base, fam, added = tr_
         enc_id, enc_cls = enc
         key, kids = W.key_form(fam, form)
-        opts = Options(W, kind, base, mode, strict, positional)
+        obase = {**base, "zip": header["zip"]} if kind == "jwe" and isinstance(header.get("zip"), str) else base
+        opts = Options(W, kind, obase, mode, strict, positional)
+        if "zip" in header:
+            dist["zip_header"] += 1
         h0 = copy.deepcopy(header)
         h0_items = list(h0.items())
         c0 = dict(claims)                       # values are immutable
@@ -1152,6 +1166,38 @@ def run(ctx):
         one_roundtrip(tr_, form, header, strict, claims, rng.random() < 0.3, enc, dec, mode, positional=rng.random() < 0.25,
                       dform=rng.choice(dforms) if rng.random() < 0.5 else None)
 
+    # ---- JWE: every header member the caller may give x claims classes (DEFLATE shrinks / cannot shrink)
+    def claims_class(j):
+        return [
+            {}, {"sub": "a"},
+            {"jti": "".join(rng.choice("ABCDEFGHIJKLMNOPQRSTUVWXYZabcdefghijklmnopqrstuvwxyz0123456789-_") for _ in range(43)),
+             "n": rng.getrandbits(64)},                                   # incompressible
+            {"pad": "x" * 200, "l": [0] * 60, "sub": "aaaaaaaaaaaaaaaaaaaaaaaaaaaaaaaaaaaaaaaa"},   # large, repetitive
+            {"exp": datetime.datetime(2031, 5, 6, 7, 8, 9, tzinfo=UTC), "sub": "é中\U0001F600"},
+        ][j % 5]
+    jwe_transports = [t for t in W.transports if t[1] == "jwe"]
+    nm = 0
+    for tr_ in (jwe_transports if not ctx.quick else jwe_transports[:2] + jwe_transports[3:]):
+        tname, kind, base, fam, added = tr_
+        kid0 = W.keys[fam][0].kid
+        variants = [
+            {"zip": "DEF"}, {"zip": "DEF", "cty": "JWT"}, {"zip": "DEF", "typ": "at+jwt"}, {"typ": "JOSE", "zip": "DEF", "kid": kid0},
+            {"zip": "DEF", "crit": ["zip"]}, {"cty": "x", "crit": ["cty"]}, {"kid": kid0, "x5t": "dGh1bWI", "jku": "https://example.com/jwks"},
+            {"zip": "DEF", "x5c": ["MIIB"], "x5t#S256": "abc", "x5u": "https://example.com/x"},
+        ]
+        if base["alg"].startswith("ECDH-ES"):
+            variants += [{"apu": "QWxpY2U", "apv": "Qm9i"}, {"zip": "DEF", "apu": "QWxpY2U"}, {"apv": "Qm9i", "zip": "DEF", "crit": ["zip"]}]
+        for v in variants:
+            for j in range(5):
+                nm += 1
+                h = {**base, **v} if nm % 2 else {**v, **base}          # caller's members before or after alg / enc
+                eforms, dforms = W.forms(fam)
+                ef = ["key", "keyset", "callable"][nm % 3]
+                modes = modes_for(W, kind, {**base, **({"zip": "DEF"} if "zip" in v else {})}, True)
+                dist["jwe_header_members_matrix"] += 1
+                one_roundtrip(tr_, ef, h, True, claims_class(j), nm % 4 == 0, ENCODERS[nm % 2], STD_DECODERS[nm % 3],
+                              modes[nm % len(modes)], positional=nm % 5 == 0, dform=dforms[nm % len(dforms)] if nm % 3 == 0 else None)
+
     # a few directed claims sets on one cheap JWS and one cheap JWE transport, with every encoder
     hs = W.transports[0]
     directed = [
@@ -1178,7 +1224,8 @@ def run(ctx):
     # headers that the transport refuses: the caller's header must still be untouched
     for h in ({"alg": "HS256", "typ": 1}, {"alg": "HS256", "crit": ["exp"]}, {"alg": "nope"}, {"typ": "JWT"},
               {"alg": "HS256", "unregistered": 1}, {"alg": "HS256", "kid": ""}):
-        one_roundtrip(hs, rng.choice(["key", "keyset"]), dict(h), True, {"a": 1}, False, ENCODERS[0], DECODERS[0], "reg",
+        # (an empty kid is "no kid" for a key set: the transport then overwrites it in its own copy - key form only)
+        one_roundtrip(hs, "key" if h.get("kid") == "" else rng.choice(["key", "keyset"]), dict(h), True, {"a": 1}, False, ENCODERS[0], DECODERS[0], "reg",
                       positional=False, header_valid=False)
 
     # ---------------------------------------------------------------- convert_claims / NumericDate sweep
